@@ -198,8 +198,8 @@ def run_ubi(ctx, pt):
     from crysp.threefish import Threefish
     Nb, p, nblk = pt
     nb = Nb // 8
-    G = expander(nb, 9)
-    for tail in (0, 1, nb - 1):
+    for G in (expander(nb, 9), expander(8, 9) * (nb // 8), bytes(nb)):       # also chaining values whose words coincide / are zero
+      for tail in (0, 1, nb - 1):
         M = expander((nblk - 1) * nb + (tail or nb), 10)
         r = ctx.attempt(lambda: UBI(Threefish, G, Tweak(Position=p, Type='msg'))(M))
         ctx.eq('C12/ubi/position-carry', r, ('ok', RS.ubi(G, M, 'msg', pos0=p)))
